@@ -535,8 +535,10 @@ func performIDPRequest(log telemetry.Logger, client *http.Client, uri string, fo
 		return nil, codes.Internal
 	}
 
+	// Unmarshal into the struct, not into the pointer: a literal `null` body would otherwise
+	// reset the pointer to nil and the callers would dereference it.
 	bodyTokens := &idpTokensResponse{}
-	err = json.Unmarshal(respBody, &bodyTokens)
+	err = json.Unmarshal(respBody, bodyTokens)
 	if err != nil {
 		log.Error("error unmarshalling tokens response", err)
 		return nil, codes.Internal
